@@ -26,6 +26,7 @@ def parseBase (s : String) : Option Base :=
   else if s == "bad" then some .badfile
   else if s == "master" then some .master
   else if s.startsWith "b" then (s.drop 1).toString.toNat?.map .bp
+  else if s.startsWith "i" then (s.drop 1).toString.toNat?.map .ih
   else none
 
 def parseName (s : String) : Option Name :=
